@@ -527,6 +527,8 @@ static int skel_case(const char *path, int nframes)
 		sn->copy = (unsigned char *)malloc(sn->size);
 		memcpy(sn->copy, sn->begin, sn->size);
 	}
+	if (vrng_chance(20))
+		xmp_set_player(opaque, XMP_PLAYER_VOICES, vrng_range(1, 6));	/* few voices: notes evict each other */
 	if (xmp_start_player(opaque, rate, fmt) < 0) {
 		printf("skip %s\n", path);
 		goto out;
